@@ -36,7 +36,7 @@ ICPOS = ['none', 'a1', 'aL', 'target', 'user', 'd1', 'lagvar', 'c']
 LAGOF = ['none', 'aL', 'user', 'd1']
 
 
-def make_block(corek, target, L, order, user, tree, icpos, lagof, horizon):
+def make_block(corek, target, L, order, user, tree, icpos, lagof, horizon, second=False):
     eqs = []
     if corek == 'cyclic':
         eqs += [('x', '.25*y + g + 1.'), ('y', '.5*x + c')]
@@ -74,6 +74,12 @@ def make_block(corek, target, L, order, user, tree, icpos, lagof, horizon):
         if v in ('g', 't') or (v == 'u' and user == 'none') or (v == 'd1' and not tree) or (icpos == 'aL' and L == 1):
             return None
         ics[v] = '5.'
+    if second:
+        # a second, independent alias chain on y, read by a decorative and by a lag
+        chain = chain + [('b1', 'y'), ('b2', 'b1')]
+        tail = tail + [('e1', 'b2 - ' + aL)]
+        lags.append(('LAG_b', 'b2'))
+        tail.append(('e2', 'LAG_b + e1'))
     if order == 'reverse':
         alleqs = tail + chain + eqs
     else:
@@ -156,12 +162,13 @@ def units(tier):
 def run_unit(unit, tier):
     res = core.new_result()
     dig = core.Digest()
-    for user, tree, icpos, lagof in itertools.product(USERS, (False, True), ICPOS, LAGOF):
-        blk = make_block(unit['core'], unit['target'], unit['L'], unit['order'], user, tree, icpos, lagof, unit['horizon'])
+    seconds = (False,) if tier == 'quick' else (False, True)
+    for user, tree, icpos, lagof, second in itertools.product(USERS, (False, True), ICPOS, LAGOF, seconds):
+        blk = make_block(unit['core'], unit['target'], unit['L'], unit['order'], user, tree, icpos, lagof, unit['horizon'], second)
         if blk is None:
             continue
         feats = {'core': unit['core'], 'target': unit['target'], 'L': unit['L'], 'order': unit['order'], 'user': user,
-                 'tree': tree, 'icpos': icpos, 'lagof': lagof, 'horizon': unit['horizon']}
+                 'tree': tree, 'icpos': icpos, 'lagof': lagof, 'horizon': unit['horizon'], 'second': second}
         case = {'features': feats, 'text': blk.text()}
         dig.add(blk.key())
         outcome, v, moved = compare(blk, unit['core'] == 'acyclic', case)
@@ -198,6 +205,6 @@ def run_unit(unit, tier):
 
 def replay(case):
     f = case['features']
-    blk = make_block(f['core'], f['target'], f['L'], f['order'], f['user'], f['tree'], f['icpos'], f['lagof'], f['horizon'])
+    blk = make_block(f['core'], f['target'], f['L'], f['order'], f['user'], f['tree'], f['icpos'], f['lagof'], f['horizon'], f.get('second', False))
     o, v, m = compare(blk, f['core'] == 'acyclic' and not f.get('steady'), case, steady=bool(f.get('steady')))
     return [v] if v else []
